@@ -52,6 +52,7 @@ class World:
         self.exc_classes = {}
         self.custom_globals = {}      # (modname, name) -> value
         self.config = {}
+        self._fact_cache = {}
         from . import builtins_impl
         builtins_impl.install(self)
 
@@ -278,6 +279,11 @@ class World:
         if isinstance(f, FuncVal):
             q = f.qualname
             c = self.contracts.get(q)
+            if isinstance(f.bound, Obj) and f.fi is not None:
+                # contract attached to the receiver's class for an inherited method
+                c2 = self.contracts.get("%s::%s" % (f.bound.cls, f.fi.name))
+                if c2 is not None:
+                    c, q = c2, c2.qualname
             full = ([f.bound] + list(args)) if f.bound is not None else list(args)
             if c is not None and c.when(ex, full, kwargs) and not self._is_entry(ex, q):
                 ex.used_contracts.add(q)
@@ -376,9 +382,24 @@ class World:
     # ------------------------------------------------------------------
     def on_literal(self, ex, c, choice):
         """c is a simplified z3 Bool just decided with value `choice`."""
+        while z3.is_not(c):
+            c = c.arg(0)
+            choice = not choice
         if not choice:
             return
         self.scan_literal(ex, c)
+
+    def touch(self, ex, t):
+        """First contact with a node term on this path: node-invariant facts
+        that need neither operator nor arity."""
+        seen = ex.ghost.setdefault("touched", set())
+        k = t.get_id()
+        if k in seen:
+            return t
+        seen.add(k)
+        for f in self.cached_facts(("shallow", k, t), lambda: spec.shallow_facts(t)):
+            ex.assume(f)
+        return t
 
     def scan_literal(self, ex, c):
         if z3.is_and(c):
@@ -397,6 +418,7 @@ class World:
                     self.learn(ex, a.arg(0), k=b.as_long())
 
     def learn(self, ex, t, op=None, k=None):
+        self.touch(ex, t)
         st = ex.ghost.setdefault("nodeinfo", {})
         key = t.get_id()
         info = st.setdefault(key, {"t": t, "op": None, "k": None})
@@ -416,16 +438,33 @@ class World:
             return None, None
         return info["op"], info["k"]
 
+    def cached_facts(self, key, builder):
+        """Facts are pure functions of the terms they mention: build once per
+        run, replay (with their tracked lemma terms) on later paths."""
+        c = self._fact_cache.get(key)
+        if c is None:
+            j0 = len(S.JOURNAL)
+            facts = list(builder())
+            c = (facts, list(S.JOURNAL[j0:]))
+            self._fact_cache[key] = c
+        else:
+            S.replay_tracking(c[1])
+        return c[0]
+
     def unfold(self, ex, t, Kop, k):
         if Kop not in S.FIXED_ARITY and Kop not in S.NARY_OPS:
             return
-        for f in spec.unfold(t, Kop, k):
+
+        def build():
+            fs = list(spec.unfold(t, Kop, k))
+            fs.append(S.op(t) == Kop)
+            # hash-consing: a node is determined by its content (C04 contract)
+            m = self.mk_term(Kop, [S.arg(t, S.K(i)) for i in range(k)], self.payload_terms(Kop, t))
+            if not m.eq(t):
+                fs.append(t == m)
+            return fs
+        for f in self.cached_facts(("unfold", t.get_id(), Kop, k, t), build):
             ex.assume(f)
-        ex.assume(S.op(t) == Kop)
-        # hash-consing: a node is determined by its content (C04 contract)
-        m = self.mk_term(Kop, [S.arg(t, S.K(i)) for i in range(k)], self.payload_terms(Kop, t))
-        if not m.eq(t):
-            ex.assume(t == m)
 
     # ---- content -> node function symbols ------------------------------------
     def payload_terms(self, Kop, t):
@@ -476,12 +515,16 @@ class World:
         """create_node summary: the node with this content; raises the typing
         error when the typing rules reject it (check=True)."""
         m = self.mk_term(Kop, args, payload)
-        ex.assume(S.op(m) == Kop)
-        ex.assume(S.nargs(m) == len(args))
-        for i, a in enumerate(args):
-            ex.assume(S.arg(m, S.K(i)) == a)
-        for proj, p in zip(self.payload_projs(Kop), payload):
-            ex.assume(proj(m) == p)
+
+        def build():
+            fs = [S.op(m) == Kop, S.nargs(m) == len(args)]
+            for i, a in enumerate(args):
+                fs.append(S.arg(m, S.K(i)) == a)
+            for proj, p in zip(self.payload_projs(Kop), payload):
+                fs.append(proj(m) == p)
+            return fs
+        for f in self.cached_facts(("new", m.get_id(), m), build):
+            ex.assume(f)
         if check:
             ok, _ = spec.type_rule(Kop, m, [S.type_of(a) for a in args])
             if not ex.decide(ok):
